@@ -17,7 +17,13 @@ KF(ev) ==
   IF /\ ev.op = "obs" /\ ev.kernel = "cast_strict"
      /\ ev.ty \in {"Binary", "LargeBinary"} /\ ev.opts \in {"Utf8", "LargeUtf8", "Utf8View"}
      /\ Known(ev.k) /\ ("err" \in {memo[ev.k], ev.o})
-  THEN "C02-strict-binary-to-utf8-validates-whole-buffer" ELSE ""
+  THEN "C02-strict-binary-to-utf8-validates-whole-buffer"
+  (* Known finding: `==` on dictionary arrays compares a null KEY and a valid key that  *)
+  (* references a null dictionary VALUE as different, although both rows are null        *)
+  ELSE IF /\ ev.op = "eq" /\ ev.fam = "dict" /\ ev.kvnull
+          /\ ev.ta = ev.tb /\ ev.a = ev.b /\ ev.r = FALSE
+  THEN "C02-dictionary-eq-null-value-vs-null-key"
+  ELSE ""
 
 Init2 == Init /\ l = 1
 
@@ -33,6 +39,6 @@ Next == /\ l <= Len(Rec)
         /\ LET ev == Rec[l] IN
            CASE ev.op = "obs"      -> Obs(ev)
              [] ev.op = "readback" -> Judge(ReadBackOk(ev.src, ev.got), l, <<"readback", ev.via>>) /\ UNCHANGED memo
-             [] ev.op = "eq"       -> Judge(EqOk(ev.ta, ev.a, ev.tb, ev.b, ev.r), l, <<"eq", ev.via>>) /\ UNCHANGED memo
+             [] ev.op = "eq"       -> JudgeKF(EqOk(ev.ta, ev.a, ev.tb, ev.b, ev.r), l, <<"eq", ev.via>>, KF(ev)) /\ UNCHANGED memo
 TSpec == Init2 /\ [][Next]_<<memo, l>>
 =============================================================================
